@@ -83,7 +83,7 @@ class SubstituteInterpretation(Interpretation):
             return expr
 
 
-def substitute(expr, subs):
+def substitute(expr, subs, _rename_apart=True):
     if isinstance(subs, (dict, OrderedDict)):
         subs = tuple(subs.items())
     support = frozenset(k for k, v in subs)
@@ -99,6 +99,39 @@ def substitute(expr, subs):
         return expr
 
     env = interpreter.anf(expr, stop)
+
+    # A sub-term that introduces a name of its own (Cat, Stack, Delta, ...)
+    # must not merge it with an equal name that a substituted value brings
+    # into its children: rename that name apart, substitute, then rename back,
+    # which identifies the two on the diagonal.
+    if _rename_apart and isinstance(expr, Funsor):
+        for value in env.values():
+            if not isinstance(value, Funsor) or not value.fresh:
+                continue
+            if not any(
+                isinstance(c, Funsor)
+                or (isinstance(c, tuple) and any(isinstance(e, Funsor) for e in c))
+                for c in interpreter.children(value)
+            ):
+                continue
+            incoming = frozenset().union(
+                *(
+                    v.inputs
+                    for k, v in subs
+                    if k in value.inputs and k not in value.fresh
+                )
+            )
+            clash = (value.fresh & incoming & frozenset(expr.inputs)) - support
+            if clash:
+                apart = {k: interpreter.gensym(k + "__FRESH") for k in sorted(clash)}
+                renamed = expr(
+                    **{k: Variable(v, expr.inputs[k]) for k, v in apart.items()}
+                )
+                result = substitute(renamed, subs, _rename_apart=False)
+                back = tuple(
+                    (v, Variable(k, expr.inputs[k])) for k, v in apart.items()
+                )
+                return Subs(result, back)
 
     with SubstituteInterpretation(subs, interpreter.get_interpretation()) as interp:
         for key, value in env.items():
